@@ -26,6 +26,7 @@ C18_HARNESSES = [
     ('oset_eq_cmp_1_3', 'quick', 8), ('oset_eq_cmp_0_2', 'quick', 5),
     ('oset_iteration_n3', 'quick', 7),
     ('oset_vacuity_twin_must_fail', 'quick', 5),
+    ('oset_from_iter_concrete_313', 'quick', 4), ('oset_from_iter_concrete_2212', 'quick', 4), ('oset_from_iter_concrete_54321', 'quick', 4),
     ('oset_from_iter_u8_n5', 'thorough', 30), ('oset_from_iter_u8_n6', 'thorough', 60), ('oset_from_iter_u16_n4', 'thorough', 20),
     ('oset_from_iter_pair_n4', 'thorough', 30), ('oset_insert_from_valid_m12', 'thorough', 20),
     ('oset_insert_from_valid_m16', 'thorough', 30), ('oset_extend_m6_k3', 'thorough', 120), ('oset_extend_m4_k4', 'thorough', 120),
